@@ -106,6 +106,7 @@ Section SpecProofs.
         now rewrite Hvk. }
       destruct G as [vs ->]. cbn. eauto.
     - destruct s as [| | | | | | | |sfs]; try discriminate. destruct j; try discriminate.
+      apply andb_true_iff in Hc as [_ Hc].
       change (compat_fields sfs fs = true) in Hc.
       change (conforms_fields sfs m = true) in Hj.
       change (extra_free_fields sfs m fs = true) in He.
